@@ -497,6 +497,17 @@ def calls_family(seed, quick):
     # --- exported imported function
     out.append(('export_import', Module(imports=[hostm], funcs=[Func([], [], [], [('nop',)])], exports=[('hh', 'func', 0)]),
                 [{'call': 'hh'}], {}))
+    # --- the same host function imported more than once (each import still occupies its own function index)
+    hb = ([I64], [I64])
+    for vi, names in enumerate((['h0', 'h0', 'h1'], ['h0', 'h1', 'h0'], ['h1', 'h0', 'h0', 'h0'])):
+        imps = [Import('env', nm, 'func', hb) for nm in names]
+        ni = len(imps)
+        callers = [Func([I64], [I64], [], [('local.get', 0), ('i64.const', 11 * (k + 1)), ('i64.add',), ('call', k), ('i64.const', k + 1), ('i64.xor',)]) for k in range(ni)]
+        viatab = Func([I32, I64], [I64], [], [('local.get', 1), ('local.get', 0), ('call_indirect', hb, 0)])
+        m = Module(imports=imps, funcs=callers + [viatab], tables=[(ni + 2, ni + 2)], elems=[Elem(('i32.const', 0), list(range(ni)) + [ni + 1])],
+                   exports=[('c%d' % k, 'func', ni + k) for k in range(ni)] + [('e%d' % k, 'func', k) for k in range(ni)] + [('t', 'func', 2 * ni)])
+        script = [{'call': 'c%d' % k} for k in range(ni)] + [{'call': 'e%d' % (ni - 1)}, {'call': 't', 'assume': {0: '$ <= %d' % ni}}]
+        out.append(('dupimport_%d' % vi, m, script, {'tab_slots': ni + 2, 'max_host_calls': 2 * ni + 4}))
     # --- call_indirect: defined / imported table, const / global offsets, 1..3 entries, overlapping segments
     sig_a = ([I32, I64], [I64])
     sig_b = ([I64], [I64])
